@@ -414,7 +414,14 @@ func c03GenBM(r *vrand) (pairs [][2]int64, memLen int64, fill byte, gen string) 
 		case k < 5:
 			sizes[i] = memLen + 1 + c03LogUniform(r, 0, 1<<20) // violates VerifyConfig's rule
 		case k < 7:
-			sizes[i] = (int64(1) << 32) - 1 - int64(r.intn(24)) // size+20 wraps; 2^32-20 divides by zero
+			// size+20 wraps in uint32 (2^32-20 divides by zero).  The wrapped stride is below 20 bytes, so the
+			// slot count explodes; the model's slot loop is evaluated step by step inside Coq, hence only small
+			// mappings get the general case and large ones the division by zero (which precedes any loop)
+			if memLen <= 1<<16 {
+				sizes[i] = (int64(1) << 32) - 1 - int64(r.intn(24))
+			} else {
+				sizes[i] = (int64(1) << 32) - bufferHeaderSize
+			}
 		case k < 12:
 			sizes[i] = memLen - int64(r.intn(64)) // whole-mapping slices
 		default:
